@@ -1,10 +1,14 @@
 import MetapypeModel.Lemmas.NsFrame
+import MetapypeModel.Lemmas.NsVisible
 /-
   C13 — namespace operations stay inside the subtree they are applied to.
   Stated on the heap model with shared dict cells (Model/NsHeap.lean), for EVERY heap — arbitrary
   sharing of dict objects between arbitrary nodes is allowed; the only well-formedness needed is that
   references in use were allocated (`RefsOK`).  `fuel` is the recursion budget; the isolation theorems
-  hold for every fuel.
+  hold for every fuel.  The visibility theorems (`C13_declare_visible`, `C13_remove_visible`,
+  `C13_attach_visible`) say what the operation achieves inside the subtree: they too hold for every
+  heap and every sharing pattern, for every node the recursion budget reaches (`ReachIn`; Python's
+  recursion is unbounded, so every node of a finite subtree - `C13_declare_visible_subtree`).
 -/
 namespace Metapype
 
@@ -117,6 +121,91 @@ theorem C13_history (fuel : Nat) : ∀ (ops : List NsOp) (H : NsHeap), RefsOK H 
     simp only [List.foldl_cons]
     exact C13_history fuel ops _ (C13_refs_step fuel H h op)
 
+/-! ### visibility: what the operations achieve inside the subtree -/
+
+theorem ReachIn.mono {K : Nat → List Nat} : ∀ {k k' n m : Nat}, ReachIn K k n m → k ≤ k' → ReachIn K k' n m
+  | _, k' + 1, _, _, .refl k n, _ => .refl k' n
+  | _, 0, _, _, .refl k n, h => by omega
+  | _, k' + 1, _, _, .step hc hr, h => .step hc (ReachIn.mono hr (by omega))
+  | _, 0, _, _, .step hc hr, h => by omega
+
+theorem reachIn_of_reach {K : Nat → List Nat} {n m : Nat} (h : Reach K n m) : ∃ k, ReachIn K k n m := by
+  induction h with
+  | refl n => exact ⟨1, .refl 0 n⟩
+  | step hc _ ih => obtain ⟨k, hk⟩ := ih; exact ⟨k + 1, .step hc hk⟩
+
+theorem reach_of_reachIn {K : Nat → List Nat} : ∀ {k n m : Nat}, ReachIn K k n m → Reach K n m
+  | _, _, _, .refl _ n => Reach.refl n
+  | _, _, _, .step hc hr => Reach.step hc (reach_of_reachIn hr)
+
+/-- declaring `p = u` on `n` makes the binding visible on `n` and on every node of its subtree the recursion reaches -
+    for EVERY heap: whatever dict objects the nodes shared before, and in whatever order they are visited -/
+theorem C13_declare_visible (fuel : Nat) (H : NsHeap) (hr : RefsOK H) (n : Nat) (p u : String) (m : Nat)
+    (hm : ReachIn H.kids fuel n m) : ((addNs fuel H n p u none).nsmapOf m).get? p = some u :=
+  addNs_visible p u (fun d => d.get? p = some u) (fun d => get?_set_self d p u) fuel H n none hr m hm
+
+/-- … hence on the entire subtree: every node below `n` is reached once the budget exceeds its depth (Python's
+    recursion has no budget) -/
+theorem C13_declare_visible_subtree (H : NsHeap) (hr : RefsOK H) (n : Nat) (p u : String) (m : Nat)
+    (hm : Reach H.kids n m) : ∃ k, ∀ fuel, k ≤ fuel → ((addNs fuel H n p u none).nsmapOf m).get? p = some u := by
+  obtain ⟨k, hk⟩ := reachIn_of_reach hm
+  exact ⟨k, fun fuel hf => C13_declare_visible fuel H hr n p u m (hk.mono hf)⟩
+
+/-- the node the declaration is applied to keeps every other binding it had (a tree node is not its own descendant) -/
+theorem C13_declare_keeps_others (fuel : Nat) (H : NsHeap) (hr : RefsOK H) (n : Nat) (p u : String)
+    (hac : ∀ c ∈ H.kids n, ¬ Reach H.kids c n) :
+    (addNs (fuel + 1) H n p u none).nsmapOf n = (H.nsmapOf n).set p u :=
+  (addNs_root fuel H n p u hr hac).1
+
+/-- removing `p` on `n` leaves no node of the subtree with the prefix … -/
+theorem C13_remove_visible (fuel : Nat) (H : NsHeap) (hr : RefsOK H) (n : Nat) (p : String) (m : Nat)
+    (hm : ReachIn H.kids fuel n m) : ((removeNs fuel H n p none).nsmapOf m).has p = false :=
+  removeNs_visible p fuel H n none hr m hm
+
+/-- … so together with `C13_remove_isolated` the prefix disappears from exactly that subtree:
+    gone on every node inside, every node outside sees the map it saw before -/
+theorem C13_remove_exact (fuel : Nat) (H : NsHeap) (hr : RefsOK H) (n : Nat) (p : String) (m : Nat) :
+    (ReachIn H.kids fuel n m → ((removeNs fuel H n p none).nsmapOf m).has p = false) ∧
+    (¬ Reach H.kids n m → (removeNs fuel H n p none).nsmapOf m = H.nsmapOf m) :=
+  ⟨C13_remove_visible fuel H hr n p m, C13_remove_isolated fuel H hr n p m⟩
+
+theorem has_of_mem : ∀ (d : Dict) (kv : String × String), kv ∈ d → d.has kv.1 = true
+  | [], _, h => by cases h
+  | x :: d, kv, h => by
+    simp only [Dict.has, List.any_cons, Bool.or_eq_true]
+    rcases List.mem_cons.mp h with e | h
+    · left; simp [e]
+    · right; exact has_of_mem d kv h
+
+/-- attaching `c` under `par`: afterwards the child's map is the merge of the parent's bindings into the child's
+    own map - every prefix of the parent is visible in the child, and every binding the child had is kept (the
+    child's own bindings win).  `hac`: the child is not its own descendant; key uniqueness is what a Python dict
+    guarantees. -/
+theorem C13_attach_visible (fuel : Nat) (H : NsHeap) (hr : RefsOK H) (par c : Nat)
+    (hac : ∀ k ∈ (withChild H par c).kids c, ¬ Reach (withChild H par c).kids k c)
+    (hnp : (H.nsmapOf par).keys.Nodup) (hnc : (H.nsmapOf c).keys.Nodup) :
+    (∀ kv ∈ H.nsmapOf par, ((attachNs (fuel + 1) H par c).nsmapOf c).has kv.1 = true) ∧
+    (∀ k v, (H.nsmapOf c).get? k = some v → ((attachNs (fuel + 1) H par c).nsmapOf c).get? k = some v) := by
+  have hunfold : attachNs (fuel + 1) H par c = (if dictEq ((withChild H par c).nsmapOf par) ((withChild H par c).nsmapOf c) = true
+    then (withChild H par c).setNs c ((withChild H par c).ns par)
+    else ((withChild H par c).nsmapOf par).foldl (fun Hc kv =>
+      if (Hc.nsmapOf c).has kv.1 then Hc else addNs (fuel + 1) Hc c kv.1 kv.2 none) (withChild H par c)) := rfl
+  rw [hunfold]
+  have hp : (withChild H par c).nsmapOf par = H.nsmapOf par := rfl
+  have hc : (withChild H par c).nsmapOf c = H.nsmapOf c := rfl
+  by_cases hde : dictEq ((withChild H par c).nsmapOf par) ((withChild H par c).nsmapOf c) = true
+  · rw [if_pos hde]
+    have hmap : ((withChild H par c).setNs c ((withChild H par c).ns par)).nsmapOf c = H.nsmapOf par := by
+      simp [NsHeap.nsmapOf, NsHeap.setNs, withChild]
+    rw [hmap]
+    rw [hp, hc] at hde
+    have hsame := (dictEq_iff _ _ hnp hnc).mp hde
+    exact ⟨fun kv hkv => has_of_mem _ kv hkv, fun k v h => by rw [hsame k]; exact h⟩
+  · rw [if_neg hde]
+    have := attach_fold_root fuel c (withChild H par c).kids hac ((withChild H par c).nsmapOf par) (withChild H par c) hr rfl
+    rw [this, hp, hc]
+    exact ⟨fun kv hkv => mergeD_has_parent _ _ kv hkv, fun k v h => mergeD_keeps_own _ _ k v h⟩
+
 /-- non-vacuity: the initial heap (every node its own empty map) satisfies the hypothesis -/
 example : RefsOK { kids := fun _ => [], ns := fun a => if a < 3 then a else 0, cell := fun _ => [], next := 3 } := by
   intro m; simp only; split <;> omega
@@ -127,5 +216,11 @@ example :
     let H1 := addNs 5 H0 1 "a" "u2" none
     (H1.nsmapOf 0, H1.nsmapOf 2, H1.nsmapOf 1) = ([("a", "u1")], [("a", "u1")], [("a", "u2")]) := by
   decide
+
+/-- visibility on a heap with sharing: root and both children hold ONE dict object; declaring on the root reaches all three -/
+example :
+    let H0 : NsHeap := { kids := fun a => if a = 0 then [1, 2] else [], ns := fun _ => 0, cell := fun _ => [("a", "u1")], next := 1 }
+    ReachIn H0.kids 2 0 2 ∧ RefsOK H0 := by
+  refine ⟨.step (c := 2) (by decide) (.refl 0 2), fun m => by simp⟩
 
 end Metapype
